@@ -28,9 +28,9 @@ theorem scanLoop_spans (cfg : LexCfg) (whole : Str) :
   | case1 pos prev ls => intro pre _ _ t ht; simp at ht
   | case2 pos prev ls c cs _ ih =>
     intro pre hw hp
-    obtain ⟨used, hu, hne, htok⟩ := scanOne_consumes cfg prev pos c cs
-    have hpos : pos + (ulen (c :: cs) - ulen (scanOne cfg prev pos c cs).rest) = ulen (pre ++ used) := by
-      rw [hu, ulen_append, ulen_append]; omega
+    obtain ⟨used, hu, hne, hby, htok⟩ := scanOne_consumes cfg prev pos c cs
+    have hpos : pos + (scanOne cfg prev pos c cs).bytes = ulen (pre ++ used) := by
+      rw [hby, ulen_append]; omega
     have ih' := ih (pre ++ used) (by rw [hw, hu]; simp) hpos.symm
     intro t ht
     rcases push_tokens_mem _ _ t ht with ⟨r0, hst⟩ | ht
@@ -64,7 +64,7 @@ theorem scanLoop_off_ge (cfg : LexCfg) :
   | case1 => intro t ht; simp at ht
   | case2 pos prev ls c cs _ ih =>
     intro t ht
-    obtain ⟨used, hu, hne, htok⟩ := scanOne_consumes cfg prev pos c cs
+    obtain ⟨used, hu, hne, hby, htok⟩ := scanOne_consumes cfg prev pos c cs
     rcases push_tokens_mem _ _ t ht with ⟨r0, hst⟩ | ht
     · have := (htok t r0 hst).2.1; omega
     · have := ih t ht; omega
@@ -77,11 +77,11 @@ theorem scanLoop_ordered (cfg : LexCfg) :
   fun_induction scanLoop cfg src pos prev ls with
   | case1 => simp
   | case2 pos prev ls c cs _ ih =>
-    obtain ⟨used, hu, hne, htok⟩ := scanOne_consumes cfg prev pos c cs
+    obtain ⟨used, hu, hne, hby, htok⟩ := scanOne_consumes cfg prev pos c cs
     have hge := scanLoop_off_ge cfg (scanOne cfg prev pos c cs).rest
-      (pos + (ulen (c :: cs) - ulen (scanOne cfg prev pos c cs).rest))
+      (pos + (scanOne cfg prev pos c cs).bytes)
       ((scanOne cfg prev pos c cs).prev prev) pos
-    generalize hst : scanOne cfg prev pos c cs = st at ih hu htok hge ⊢
+    generalize hst : scanOne cfg prev pos c cs = st at ih hu hby htok hge ⊢
     cases st with
     | skip r => simpa [Step.push] using ih
     | err e r => simpa [Step.push] using ih
@@ -90,9 +90,7 @@ theorem scanLoop_ordered (cfg : LexCfg) :
       refine ⟨?_, ih⟩
       intro b hb
       obtain ⟨h1, h2, h3⟩ := htok t0 r0 rfl
-      simp only [Step.rest] at hu hge
-      have hpos : pos + (ulen (c :: cs) - ulen r0) = pos + ulen used := by
-        rw [hu, ulen_append]; omega
+      simp only [Step.rest, Step.bytes] at hu hge hby
       have := hge b hb
       omega
 
@@ -194,7 +192,7 @@ theorem scanLoop_lastStart (cfg : LexCfg) :
   | case1 => intro h; simpa using h
   | case2 pos prev ls c cs _ ih =>
     intro _
-    obtain ⟨used, hu, hne, _⟩ := scanOne_consumes cfg prev pos c cs
+    obtain ⟨used, hu, hne, hby, _⟩ := scanOne_consumes cfg prev pos c cs
     have h1 : ulen (c :: cs) = ulen used + ulen (scanOne cfg prev pos c cs).rest := by
       rw [hu, ulen_append]
     have := ih (by omega)
